@@ -1,6 +1,8 @@
 // Harness for C39 (and the decoder part of C09): the UDP datagram decoders of /repo's working tree.
 //
-//   snmp.udp <hex>      the datagram is placed in a heap buffer of exactly SNMP_REQUEST_SIZE bytes, prepared the way
+//   (size = bytes of the receive buffer, recvmax = receive limit passed to recvfrom; the check passes the values
+//    regenerated from the tree, so the harness prepares its buffers the way the handlers do today)
+//   snmp.udp <size> <recvmax> <hex>      the datagram is placed in a heap buffer of exactly SNMP_REQUEST_SIZE bytes, prepared the way
 //                       snmpHandleUdp prepares its static buffer (memset 0, at most size-1 bytes received), and
 //                       decoded with snmp_parse() (lib/snmplib: snmp_msg_Decode -> asn_parse_* / snmp_pdu_decode /
 //                       snmp_var_DecodeVarBind) exactly as snmpDecodePacket does.
@@ -10,8 +12,9 @@
 //   icp.udp <hex>       icp_common_t(buf,len) + icpGetUrl() of src/icp_v2.cc on a heap buffer of SQUID_UDP_SO_RCVBUF bytes
 //   htcp.spec <hex> / htcp.detail <hex> / htcp.msg <hex>   htcpUnpackSpecifier / htcpUnpackDetail / header checks of
 //                       htcpHandleMsg (src/htcp.cc is #included for its static functions) on a heap buffer of 8192 bytes
-// The unit is built with AddressSanitizer: an out-of-bounds access of the real decoders ends the process with a
-// report; vlib.corr turns that into a CRASH line for the case.
+// The unit is built with AddressSanitizer in recover mode (-fsanitize-recover=address, ASAN_OPTIONS=halt_on_error=0):
+// a report raised while a case runs replaces the case's answer by `ASAN <error kind> <READ|WRITE>` and the harness
+// goes on with the next case. Anything else that kills the process becomes a CRASH line (vlib.corr).
 #include "squid.h"
 #include "hcommon.h"
 #include "snmp_core.h"
@@ -75,8 +78,12 @@ static std::string snmpDecode(u_char *buf, int len) {
     u_char *Community = snmp_parse(&session, PDU, buf, len);
     if (Community) {
         o << "ok ver=" << session.Version << " comm=" << tohex(reinterpret_cast<char *>(Community), session.community_len)
-          << " cmd=" << int(PDU->command) << " reqid=" << PDU->reqid << " es=" << PDU->errstat << " ei=" << PDU->errindex
-          << varSummary(PDU->variables);
+          << " cmd=" << int(PDU->command) << " reqid=" << PDU->reqid;
+        if (PDU->command == SNMP_PDU_GETBULK)   // the same two integers land in other fields
+            o << " es=" << PDU->non_repeaters << " ei=" << PDU->max_repetitions;
+        else
+            o << " es=" << PDU->errstat << " ei=" << PDU->errindex;
+        o << varSummary(PDU->variables);
         xfree(Community);
     } else {
         o << "fail";
@@ -89,7 +96,7 @@ static std::string snmpDecode(u_char *buf, int len) {
 struct RecvBuf {
     u_char *p;
     int len;
-    RecvBuf(const std::string &d, size_t size, bool exact) {
+    RecvBuf(const std::string &d, size_t size, size_t recvmax, bool exact) {
         if (exact) {
             p = static_cast<u_char *>(malloc(d.size() ? d.size() : 1));
             memcpy(p, d.data(), d.size());
@@ -97,7 +104,7 @@ struct RecvBuf {
         } else {
             p = static_cast<u_char *>(malloc(size));
             memset(p, 0, size);
-            len = d.size() < size - 1 ? d.size() : size - 1;
+            len = d.size() < recvmax ? d.size() : recvmax;
             memcpy(p, d.data(), len);
         }
     }
@@ -109,10 +116,10 @@ static const unsigned char STALE = 0xA5;   // stale content of a static receive 
 // a heap buffer standing for a static receive buffer: `size` bytes of stale content, at most size-1 received
 struct StaleBuf {
     char *p; int len; std::string before;
-    StaleBuf(const std::string &d, size_t size) {
+    StaleBuf(const std::string &d, size_t size, size_t recvmax) {
         p = static_cast<char *>(malloc(size));
         memset(p, STALE, size);
-        len = d.size() < size - 1 ? d.size() : size - 1;
+        len = d.size() < recvmax ? d.size() : recvmax;
         memcpy(p, d.data(), len);
         before.assign(p, size);
     }
@@ -136,20 +143,39 @@ static std::string specText(const char *base) {
     return o.str();
 }
 
+// ------------------------------------------------------------------------------------------------ ASan reports
+extern "C" void __asan_set_error_report_callback(void (*)(const char *));
+static std::string asanSeen;
+static void onAsanReport(const char *report) {
+    if (!asanSeen.empty()) return;              // first report of the case
+    std::string r(report ? report : "");
+    std::string kind = "unknown";
+    const auto k = r.find("AddressSanitizer: ");
+    if (k != std::string::npos) {
+        const auto e = r.find_first_of(" \n", k + 18);
+        kind = r.substr(k + 18, e == std::string::npos ? std::string::npos : e - (k + 18));
+    }
+    const char *rw = r.find("WRITE of size") != std::string::npos ? "WRITE" : (r.find("READ of size") != std::string::npos ? "READ" : "-");
+    asanSeen = kind + " " + rw;
+}
+
 int main() {
+    __asan_set_error_report_callback(onAsanReport);
     std::string line;
     while (std::getline(std::cin, line)) {
         auto a = splitws(line);
         if (a.empty()) { std::cout << "\n"; continue; }
         const std::string &op = a[0];
         std::ostringstream o;
+        asanSeen.clear();
         try {
             if (op == "snmp.udp" || op == "snmp.exact") {
-                RecvBuf b(unhex(a[1]), SNMP_REQUEST_SIZE, op == "snmp.exact");
-                o << snmpDecode(b.p, b.len);
+                const bool exact = (op == "snmp.exact");
+                RecvBuf b(unhex(exact ? a[1] : a[3]), exact ? 0 : std::stoul(a[1]), exact ? 0 : std::stoul(a[2]), exact);
+                if (b.len > 0) o << snmpDecode(b.p, b.len); else o << "empty";
             } else if (op == "icp.udp") {
                 // as icpHandleUdp: LOCAL_ARRAY(char, buf, SQUID_UDP_SO_RCVBUF), recvfrom(.., SQUID_UDP_SO_RCVBUF - 1), buf[len] = 0
-                StaleBuf b(unhex(a[1]), SQUID_UDP_SO_RCVBUF);
+                StaleBuf b(unhex(a[3]), std::stoul(a[1]), std::stoul(a[2]));
                 b.p[b.len] = '\0';
                 icp_common_t header(b.p, b.len);
                 o << "len=" << header.length << " op=" << int(header.opcode) << " ver=" << int(header.version)
@@ -161,7 +187,7 @@ int main() {
                 } else o << " url=skip";
             } else if (op == "htcp.spec" || op == "htcp.detail" || op == "htcp.msg") {
                 // as htcpRecv: static char buf[8192], recvfrom(.., sizeof(buf) - 1)
-                StaleBuf b(unhex(a[1]), 8192);
+                StaleBuf b(unhex(a[3]), std::stoul(a[1]), std::stoul(a[2]));
                 lastSpec.seen = false;
                 if (op == "htcp.spec") {
                     const auto s = htcpUnpackSpecifier(b.p, b.len);
@@ -177,6 +203,7 @@ int main() {
                     o << " diff=" << b.diff();
                 } else {
                     Ip::Address from;
+                    from.setLocalhost(); from.port(4827);   // a real sender address (never equal to an unset queried_addr[] slot)
                     old_squid_format = 7;
                     htcpHandleMsg(b.p, b.len, from);
                     o << "fmt=" << old_squid_format << " spec=";
@@ -191,7 +218,8 @@ int main() {
         } catch (...) {
             o << "EXC unknown";
         }
-        std::cout << o.str() << "\n" << std::flush;
+        if (!asanSeen.empty()) std::cout << "ASAN " << asanSeen << "\n" << std::flush;
+        else std::cout << o.str() << "\n" << std::flush;
     }
     return 0;
 }
